@@ -360,7 +360,7 @@ func violationsFor(prop string, r *RunResult, bin string, idx int) []Violation {
 			libPanic = true
 		}
 	}
-	if libPanic && (prop == "C03" || prop == "C12" || prop == "C18") {
+	if libPanic {
 		p := r.Panics[0]
 		poisonDep := false
 		if !r.spec.NoPoison {
@@ -383,6 +383,11 @@ func violationsFor(prop string, r *RunResult, bin string, idx int) []Violation {
 			out = append(out, Violation{Prop: "C03", Rule: "panic", Detail: fmt.Sprintf("library goroutine panicked (this terminates the process): %s\n%s", p.Value, top)})
 		case !poisonDep && prop == "C18" && codecStack(p.Stack):
 			out = append(out, Violation{Prop: "C18", Rule: "panic", Detail: fmt.Sprintf("decoder panicked on peer-supplied bytes: %s\n%s", p.Value, top)})
+		case !poisonDep && prop != "C12" && prop != "C18":
+			// a panic on a library goroutine terminates the process: no call in flight ends in its
+			// outcome, no relayed call is ended or answered, nothing is drained or cleaned up.
+			// Whatever property this run was exploring does not hold on it.
+			out = append(out, Violation{Prop: prop, Rule: "library-panic", Detail: fmt.Sprintf("a library goroutine panicked (this terminates the process) in a run of the workload for %s: %s\n%s", prop, p.Value, top)})
 		}
 	}
 	if r.crashed && prop == "C03" {
